@@ -265,6 +265,13 @@ func checkTasksScenario(p *TaskPlan, rc *simkit.RunCtx) {
 						notBefore, why = prev.NextAt, "the time it had set for its next execution itself"
 					}
 				}
+				if e.BeginT < notBefore && prev != nil && e.BeginT-prev.EndT < time.Second {
+					// a second execution right on the heels of the first: the listed finding (the queue handler and the
+					// schedule handler's overtime path both start the task for one due time)
+					rc.Fail("C07.extra-run", "a task was executed more often than it was submitted (task had a schedule entry)",
+						fmt.Sprintf("repeating task %d: execution %d began at %v, right after execution %d had returned at %v", i, n, e.BeginT, n-1, prev.EndT))
+					return
+				}
 				if e.BeginT < notBefore {
 					rc.Fail("C07.early", "a task that was only scheduled started before its scheduled time (repeating task)",
 						fmt.Sprintf("task %d: execution %d began at %v, not due before %v (%s)", i, n, e.BeginT, notBefore, why))
